@@ -412,6 +412,30 @@ impl Imd {
         }
         Ok(())
     }
+    /// Error unless the sector exists and has a data area, i.e. unless `write_sector` would accept it.
+    /// Does not move the head.  Used to refuse a block write as a whole before any part of it is written.
+    fn check_sector_writable(&self,cyl: usize,head: usize,sec: usize) -> STDRESULT {
+        for trk in &self.tracks {
+            if trk.cylinder as usize==cyl && (trk.head & HEAD_MASK) as usize==head {
+                let mut idx = 0;
+                for curr in &trk.sector_map {
+                    if *curr as usize==sec {
+                        return match SectorData::from_u8(trk.track_buf[idx]) {
+                            Some(SectorData::Normal) | Some(SectorData::NormalDeleted) | Some(SectorData::Error) | Some(SectorData::ErrorDeleted) => Ok(()),
+                            _ => {
+                                debug!("cyl {} head {} sector {} has no data area",cyl,head,sec);
+                                Err(Box::new(img::Error::SectorAccess))
+                            }
+                        };
+                    }
+                    idx += trk.get_sec_buf_size(trk.track_buf[idx]);
+                }
+                break;
+            }
+        }
+        debug!("cannot find cyl {} head {} sector {}",cyl,head,sec);
+        Err(Box::new(img::Error::SectorAccess))
+    }
     fn get_skew(&self,head: usize) -> Result<Vec<u8>,DYNERR> {
         match (self.kind,head) {
             (super::names::IBM_CPM1_KIND,_) => Ok(skew::CPM_1_LSEC_TO_PSEC.to_vec()),
@@ -519,6 +543,12 @@ impl img::DiskImage for Imd {
                 let mut src_offset = 0;
                 let psec_size = SECTOR_SIZE_BASE << sector_shift;
                 let padded = super::quantize_block(dat, chs_list.len()*psec_size);
+                // refuse the whole block before writing any part of it
+                for [cyl,head,lsec] in &chs_list {
+                    self.check_user_area_up_to_cyl(*cyl, off)?;
+                    let skew_table = self.get_skew(*head)?;
+                    self.check_sector_writable(*cyl,*head,skew_table[*lsec-1] as usize)?;
+                }
                 for [cyl,head,lsec] in chs_list {
                     self.check_user_area_up_to_cyl(cyl, off)?;
                     let skew_table = self.get_skew(head)?;
@@ -538,8 +568,9 @@ impl img::DiskImage for Imd {
                 let mut src_offset = 0;
                 let padded = super::quantize_block(dat, chs_list.len()*sec_size);
                 // refuse the whole block before writing any part of it
-                for [cyl,_head,_lsec] in &chs_list {
+                for [cyl,head,lsec] in &chs_list {
                     self.check_user_area_up_to_cyl(*cyl, 0)?;
+                    self.check_sector_writable(*cyl,*head,*lsec)?;
                 }
                 for [cyl,head,lsec] in chs_list {
                     self.check_user_area_up_to_cyl(cyl, 0)?;
